@@ -18,7 +18,7 @@ KINDS = ["const", "fn", "fn_head", "struct", "word"]
 
 
 def delta(src):
-    return common.call({"op": "delta_front", "src": src, "xml": True}, build="chk", timeout=60)
+    return common.call({"op": "delta_front", "src": src, "xml": True, "header_kinds": True}, build="chk", timeout=60)
 
 
 def check_module(decls, rng, wild=True):
@@ -53,6 +53,7 @@ def check_module(decls, rng, wild=True):
             diff = gen_syntax.first_difference(norm(alt), norm(got))
             if diff:
                 return "header differs from the parse of the restricted module: " + classify(diff), diff, dict(replay, restricted=restricted)
+
         else:
             return "restricted module not accepted", str(r2)[:200], dict(replay, restricted=restricted)
     # leak checks on the raw XML text: private names and statements of public bodies must not occur
@@ -64,6 +65,9 @@ def check_module(decls, rng, wild=True):
     for tag in ("<FunctionBody>", "<VariableDeclaration", "<Assignment>", "<Goto", "<Label", "<Loop", "<If>", "<Block>", "<MethodCall"):
         if tag in text:
             return "statement of a function body appears in the header", tag, replay
+    # ... nor anywhere in the header's node array (orphaned nodes would not show in the XML dump, which follows the declarations)
+    if r.get("header_body_kinds"):
+        return "header holds nodes that only occur in function bodies or private zones", r["header_body_kinds"], replay
     if r["header_decls"] != len(want):
         return "header declaration count differs", {"expected": len(want), "observed": r["header_decls"]}, replay
     return None, {"public": len(want), "total": len(decls)}, replay
